@@ -143,6 +143,41 @@ def boundary_pass(ctx, np, sympy, expr_as_matrix):
             if back != {I: 1}:
                 ctx.violation('frommatrix', case, {I: 1}, back, key='matrix:frommatrix:d7')
                 break
+    # (c) matrices are values: what a caller does with a returned matrix (in-place arithmetic) or with the multivector afterwards
+    # (in-place coefficient update) does not change what asmatrix() returns next - also for the algebra's shared blade objects
+    for sig in ([1, 1, 1], [0, 1, 1]):
+        alg = make_algebra(list(sig))
+        N = 2 ** alg.d
+        a = MultiVector.fromkeysvalues(alg, (1, 2, 4), [2.0, 3.0, 5.0]); b = MultiVector.fromkeysvalues(alg, (3, 5), [7.0, 1.0])
+        blade = alg.blades[list(alg.canon2bin)[1]]
+        for who, x in (('a multivector', a), ('a blade object of the algebra', blade)):
+            M0 = np.array(x.asmatrix(), dtype=float).copy()
+            S = x.asmatrix(); 
+            try:
+                S += np.asarray(b.asmatrix()); S *= 3
+            except Exception:
+                pass
+            case = {'sig': list(sig), 'object': who, 'scenario': 'S = x.asmatrix(); S += other; S *= 3; x.asmatrix() again'}
+            ctx.case(case, tag='matrix-aliasing')
+            M1 = np.array(x.asmatrix(), dtype=float)
+            if not np.array_equal(M0, M1):
+                ctx.violation('first-column', case, 'the matrix of x, as before', 'the matrix the caller computed in place', key='matrix:aliasing')
+                continue
+        xs = MultiVector.fromkeysvalues(alg, (1, 2, 4), [np.array([1.0, 2.0]), np.array([3.0, 4.0]), np.array([5.0, 6.0])])
+        xs0 = xs[0]
+        m_before = np.array(xs0.asmatrix(), dtype=float).copy()
+        y = MultiVector.fromkeysvalues(alg, (1, 2, 4), [9.0, 8.0, 7.0])
+        xm = MultiVector.fromkeysvalues(alg, (1, 2, 4), [1.0, 3.0, 5.0])
+        xm.asmatrix()
+        xm.values()[0] = 4.0
+        case = {'sig': list(sig), 'scenario': 'asmatrix(); coefficient changed in place; asmatrix() again'}
+        ctx.case(case, tag='matrix-stale')
+        col = np.array(xm.asmatrix(), dtype=float)[:, 0]
+        exp = np.zeros(N); 
+        for k, v in zip(xm.keys(), xm.values()):
+            exp[list(alg.canon2bin.values()).index(k)] = v
+        if not np.array_equal(col, exp):
+            ctx.violation('first-column', case, exp.tolist(), col.tolist(), key='matrix:stale')
     for sig, twin_kw in (([0, 1, 1, 1], {'start_index': 1}), ([1, 1, 1], {'start_index': 0}), ([1, 1, 1], {})):
         alg = make_algebra(list(sig))
         twin = make_algebra(list(sig), **twin_kw)
